@@ -239,4 +239,141 @@ example : InWindow (({ viewx := 0, limx := 20, limy := 5, width := 4, height := 
 example : (({ viewx := 0, limx := 20, limy := 5, width := 4, height := 2 } : ViewPort).scrollRight 100).viewx = 16 := by decide
 example : (({ viewx := 0, limx := 3, limy := 5, width := 4, height := 2 } : ViewPort).scrollRight 100).viewx = 0 := by decide
 
+/-! ## BoxLayout: geometry of the children rectangles
+
+`layoutPlaces` gives the `Resize` arguments of every child; `childRects` what the children's ViewPorts become
+(for arbitrary previous ViewPorts `olds`, all of which have the layout's view as parent).  "Along the axis" is x
+for a horizontal and y for a vertical layout (`aStart`, `aLen`); `cStart`, `cLen` are the cross axis.
+A rectangle is non-empty when both extents are positive; empty rectangles can keep a stale origin
+(ViewPort.Resize ignores an origin outside the parent) and are excluded from order/containment statements —
+nothing can be drawn through them (`vp_contain`). -/
+
+section geometry
+variable {F : Type} [LayoutNum F]
+
+/-- extents handed to the children: preferred extent + padding -/
+def extents (hz : Bool) (avail : Int) (cs : List (Child F)) : List Int :=
+  List.zipWith (· + ·) (cs.map (Child.ext hz)) (pads avail (sumInt (cs.map (Child.ext hz))) (cs.map (·.fill)))
+
+def childRects (hz : Bool) (vw vh : Int) (olds : List ViewPort) (cs : List (Child F)) : List ViewPort :=
+  List.zipWith (applyPlace vw vh) olds (layoutPlaces hz vw vh cs)
+
+theorem layoutPlaces_eq (hz : Bool) (vw vh : Int) (cs : List (Child F)) :
+    layoutPlaces hz vw vh cs = placeAlong hz vw vh 0 (extents hz (if hz then vw else vh) cs) := rfl
+
+/-- Hypotheses under which the geometry theorems hold: the view has non-negative size, the children report
+non-negative preferred extents, the paddings are non-negative (proved for exact arithmetic: `pads_nonneg`),
+and the children's ViewPorts have a parent. -/
+structure GeoOK (hz : Bool) (vw vh : Int) (olds : List ViewPort) (cs : List (Child F)) : Prop where
+  vw0 : 0 ≤ vw
+  vh0 : 0 ≤ vh
+  ext0 : ∀ c ∈ cs, 0 ≤ c.ext hz
+  pad0 : ∀ p ∈ pads (if hz then vw else vh) (sumInt (cs.map (Child.ext hz))) (cs.map (·.fill)), 0 ≤ p
+  par : ∀ o ∈ olds, o.hasView = true
+
+theorem extents_nonneg {hz : Bool} {vw vh : Int} {olds : List ViewPort} {cs : List (Child F)}
+    (g : GeoOK hz vw vh olds cs) : ∀ e ∈ extents hz (if hz then vw else vh) cs, 0 ≤ e := by
+  intro e he
+  obtain ⟨i, hi⟩ := List.getElem?_of_mem he
+  simp only [extents, List.getElem?_zipWith] at hi
+  cases h1 : (cs.map (Child.ext hz))[i]? with
+  | none => simp [h1] at hi
+  | some a =>
+    cases h2 : (pads (if hz then vw else vh) (sumInt (cs.map (Child.ext hz))) (cs.map (·.fill)))[i]? with
+    | none => simp [h1, h2] at hi
+    | some b =>
+      simp [h1, h2] at hi
+      have ha : 0 ≤ a := by
+        have := List.mem_of_getElem? h1
+        simp only [List.mem_map] at this
+        obtain ⟨c, hc, rfl⟩ := this
+        exact g.ext0 c hc
+      have hb := g.pad0 b (List.mem_of_getElem? h2)
+      omega
+
+/-- the rectangle of child i, described through its slot: position `s` = sum of the extents before it -/
+theorem childRect_slot {hz : Bool} {vw vh : Int} {olds : List ViewPort} {cs : List (Child F)}
+    (g : GeoOK hz vw vh olds cs) (i : Nat) (r : ViewPort) (hr : (childRects hz vw vh olds cs)[i]? = some r) :
+    ∃ e, (extents hz (if hz then vw else vh) cs)[i]? = some e ∧ 0 ≤ e ∧
+      let s := sumInt ((extents hz (if hz then vw else vh) cs).take i)
+      let avail := if hz then vw else vh
+      let cross := if hz then vh else vw
+      0 ≤ s ∧ aLen hz r = (if e > avail - s then avail - s else e) ∧ (s < avail → aStart hz r = s) ∧
+      cLen hz r = cross ∧ (0 < cross → cStart hz r = 0) := by
+  simp only [childRects, List.getElem?_zipWith, layoutPlaces_eq] at hr
+  cases ho : olds[i]? with
+  | none => simp [ho] at hr
+  | some o =>
+    cases hp : (placeAlong hz vw vh 0 (extents hz (if hz then vw else vh) cs))[i]? with
+    | none => simp [ho, hp] at hr
+    | some p =>
+      simp [ho, hp] at hr
+      have hlen : i < (extents hz (if hz then vw else vh) cs).length := by
+        have : i < (placeAlong hz vw vh 0 (extents hz (if hz then vw else vh) cs)).length := by
+          rcases Nat.lt_or_ge i (placeAlong hz vw vh 0 (extents hz (if hz then vw else vh) cs)).length with h | h
+          · exact h
+          · simp [List.getElem?_eq_none h] at hp
+        simpa [placeAlong_length] using this
+      have he : (extents hz (if hz then vw else vh) cs)[i]? = some ((extents hz (if hz then vw else vh) cs)[i]) :=
+        List.getElem?_eq_getElem hlen
+      have hp' := placeAlong_get hz vw vh _ 0 i _ he
+      rw [hp] at hp'
+      simp only [Option.some.injEq, Int.zero_add] at hp'
+      have hnn := extents_nonneg g
+      have he0 : 0 ≤ (extents hz (if hz then vw else vh) cs)[i] := hnn _ (List.getElem_mem hlen)
+      have hs0 := sum_take_nonneg _ i hnn
+      refine ⟨_, he, he0, hs0, ?_⟩
+      have := applyPlace_slot hz vw vh _ _ o (g.par o (List.mem_of_getElem? ho)) g.vw0 g.vh0 hs0 he0
+      rw [← hr, hp']
+      exact this
+
+/-- **Order and disjointness.**  Children are placed in list order along the axis and never overlap: the end of
+an earlier non-empty child rectangle is at or before the start of every later non-empty one. -/
+theorem box_order_disjoint {hz : Bool} {vw vh : Int} {olds : List ViewPort} {cs : List (Child F)}
+    (g : GeoOK hz vw vh olds cs) (i j : Nat) (ri rj : ViewPort) (hij : i < j)
+    (hi : (childRects hz vw vh olds cs)[i]? = some ri) (hj : (childRects hz vw vh olds cs)[j]? = some rj)
+    (ni : 0 < aLen hz ri) (nj : 0 < aLen hz rj) :
+    aStart hz ri + aLen hz ri ≤ aStart hz rj := by
+  obtain ⟨ei, hei, _, hsi, hli, hsti, _⟩ := childRect_slot g i ri hi
+  obtain ⟨ej, hej, _, hsj, hlj, hstj, _⟩ := childRect_slot g j rj hj
+  have hstep := sum_take_step _ i j ei (extents_nonneg g) hij hei
+  generalize (if hz = true then vw else vh) = avail at *
+  split at hli <;> split at hlj <;> omega
+
+/-- **Inside the layout's own view.**  Every non-empty child rectangle lies inside `[0,vw) × [0,vh)` of the
+layout's view (children that do not fit are clipped or become empty), and spans the whole cross axis. -/
+theorem box_inside {hz : Bool} {vw vh : Int} {olds : List ViewPort} {cs : List (Child F)}
+    (g : GeoOK hz vw vh olds cs) (i : Nat) (r : ViewPort) (hi : (childRects hz vw vh olds cs)[i]? = some r)
+    (ne : 0 < aLen hz r) (nc : 0 < cLen hz r) :
+    0 ≤ aStart hz r ∧ aStart hz r + aLen hz r ≤ (if hz then vw else vh) ∧
+    cStart hz r = 0 ∧ cLen hz r = (if hz then vh else vw) := by
+  obtain ⟨e, _, _, hs, hl, hst, hc, hcs⟩ := childRect_slot g i r hi
+  generalize (if hz = true then vw else vh) = avail at *
+  generalize (if hz = true then vh else vw) = cross at *
+  split at hl <;> (refine ⟨?_, ?_, ?_, hc⟩ <;> omega)
+
+/-- **At least the preferred extent when space suffices.**  If the extents handed out fit the view (which is the
+case when the preferred extents fit and the paddings add up to at most the surplus — `pads_total`), child i
+gets exactly preferred + padding ≥ preferred, and its origin is where the running sum puts it. -/
+theorem box_pref_when_fits {hz : Bool} {vw vh : Int} {olds : List ViewPort} {cs : List (Child F)}
+    (g : GeoOK hz vw vh olds cs) (hfit : sumInt (extents hz (if hz then vw else vh) cs) ≤ (if hz then vw else vh))
+    (i : Nat) (r : ViewPort) (c : Child F) (hi : (childRects hz vw vh olds cs)[i]? = some r) (hc : cs[i]? = some c) :
+    ∃ p, (pads (if hz then vw else vh) (sumInt (cs.map (Child.ext hz))) (cs.map (·.fill)))[i]? = some p ∧
+      aLen hz r = c.ext hz + p ∧ c.ext hz ≤ aLen hz r ∧
+      (0 < aLen hz r → aStart hz r = sumInt ((extents hz (if hz then vw else vh) cs).take i)) := by
+  obtain ⟨e, he, he0, hs, hl, hst, _⟩ := childRect_slot g i r hi
+  have htot := sum_take_le_total _ i e (extents_nonneg g) he
+  have he' := he
+  simp only [extents, List.getElem?_zipWith, List.getElem?_map, hc, Option.map_some] at he'
+  cases hp : (pads (if hz then vw else vh) (sumInt (cs.map (Child.ext hz))) (cs.map (·.fill)))[i]? with
+  | none => simp [hp] at he'
+  | some p =>
+    refine ⟨p, rfl, ?_⟩
+    simp [hp] at he'
+    have hp0 := g.pad0 p (List.mem_of_getElem? hp)
+    generalize (if hz = true then vw else vh) = avail at *
+    refine ⟨?_, ?_, ?_⟩ <;> (split at hl <;> omega)
+
+end geometry
+
 end Tcell.Props.C20
